@@ -44,12 +44,30 @@ def main():
         # last resort before reporting "undecided": the generic native history search (bounded refute mode)
         try:
             from pyvc.report import native
-            out = native({'kind': 'api_history_case'}, timeout=900)
-            run.bounded.append({'what': 'native API-history search after an undecided run (refute mode only)', 'found': bool(out.get('violates'))})
+            LAST = {'C01': [{'kind': 'kd_buf_search', 'seed': seed}], 'C11': [{'kind': 'flags_search', 'seed': seed}],
+                    'C02': [{'kind': 'v2_search', 'seed': seed, 'budget': 300, 'known': ['first-record-leading-zero']}],
+                    'C03': [{'kind': 'v3_blocks_search', 'seed': seed, 'budget': 300}], 'C19': [{'kind': 'codes_search', 'seed': seed, 'budget': 400},
+                                                                                              {'kind': 'supplied_table_case'}],
+                    'C12': [{'kind': 'filters_search'}], 'C05': [{'kind': 'interleaving_search', 'seed': seed, 'budget': 300}]}
+            und = [u[0] for u in run.undecided]
+            if pid in ('C07', 'C20', 'C15'):
+                comp = [n for n in ('PERF_Event', 'MACH_vmfault', 'DBG_DYLD_TIMING_LAUNCH_EXECUTABLE') if any(n in u for u in und)]
+                LAST[pid] = [{'kind': 'composite_search', 'name': n, 'budget': 1500, 'seed': seed} for n in comp]
+            if pid == 'C09':
+                names = sorted(set(u.split('/')[1].split('.', 1)[-1] for u in und if u.count('/') >= 2))
+                LAST['C09'] = [{'kind': 'arg_fidelity_search', 'decoders': names}]
+            out = {}
+            for rq in LAST.get(pid, []) + [{'kind': 'api_history_case'}]:
+                out = native(rq, timeout=900)
+                run.bounded.append({'what': 'native %s after an undecided run (refute mode only)' % rq['kind'], 'found': bool(out.get('violates'))})
+                if out.get('violates'):
+                    f = out.get('found') if isinstance(out.get('found'), dict) else out
+                    out = dict(f, violates=True, request=f.get('request', rq))
+                    break
             if out.get('violates'):
-                ob = '%s/bounded/api-history' % pid
+                ob = '%s/bounded/refute-search' % pid
                 run.add(ob, 'refuted', 'native bounded search', 0, None, out.get('what', '')[:300])
-                run.violation(ob, {'request': {'kind': 'api_history_case'}, 'native': out,
+                run.violation(ob, {'request': out.get('request', {'kind': 'api_history_case'}), 'native': out,
                                    'solver_output': 'undecided obligations: %s' % [u[0] for u in run.undecided][:10]}, True, what=out.get('what', ''))
         except Exception:
             pass
